@@ -34,6 +34,9 @@ pub fn run(prop: &str, tier: Tier, seed: i64, replay: Option<&str>) -> i32 {
                 c11(&mut ck);
                 checksum_stage(&mut ck);
             }
+            if matches!(prop, "C04" | "C06") {
+                shapes_stage(&mut ck);
+            }
         },
         "C03" => {
             let (a, r) = sweeps::c03_sweep(tier);
@@ -63,6 +66,7 @@ pub fn run(prop: &str, tier: Tier, seed: i64, replay: Option<&str>) -> i32 {
             ck.lens_stage(plans_for(prop, tier));
         },
         "C11" => c11(&mut ck),
+        "C14" => shapes_stage(&mut ck),
         "C09" => builder_stages(&mut ck, true),
         _ => {
             eprintln!("MACHINERY: no check for {prop} in this build");
@@ -106,6 +110,16 @@ fn builder_stages(ck: &mut Check, with_product: bool) {
     one::<String>(ck, mon, depth, with_product);
     #[cfg(feature = "typed")]
     one::<purl::PackageType>(ck, mon, depth, with_product);
+}
+
+fn shapes_stage(ck: &mut Check) {
+    let t0 = Instant::now();
+    let (a, mut rep, states, transitions) = crate::m_shapes::explore(ck.tier);
+    rep["wall_s"] = json!(t0.elapsed().as_secs_f64());
+    ck.states = Some(ck.states.unwrap_or(0) + states);
+    ck.transitions = Some(ck.transitions.unwrap_or(0) + transitions);
+    ck.traces = ck.transitions;
+    ck.add_stage(a, rep);
 }
 
 fn checksum_stage(ck: &mut Check) {
@@ -249,6 +263,7 @@ pub fn replay_case(prop: &'static str, case: &Value) -> Option<Vec<Violation>> {
         },
         "quals-bfs" => return crate::xstate::replay(&crate::m_quals::QModel::new(Tier::Thorough, false), case).or_else(|| crate::xstate::replay(&crate::m_quals::QModel::new(Tier::Quick, false), case)),
         "quals-typed-bfs" => return crate::xstate::replay(&crate::m_quals::QModel::new(Tier::Quick, true), case),
+        "shape-parse" | "shape-build" => return crate::m_shapes::replay(case),
         "checksum-bfs" => return crate::xstate::replay(&crate::m_checksum::CModel::new(prop, Tier::Thorough), case),
         "builder-bfs" => return crate::xstate::replay(&crate::m_builder::BModel::<String>::new(prop, monitors_for(prop), 2), case),
         #[cfg(feature = "typed")]
